@@ -65,6 +65,13 @@ package testsuite
 // iterators and catchpoint staging tables, crash behaviour, concurrent transactions, writes
 // violating the caller contract above.
 //
+// Snapshot shape (accounts, kv, online: every transition out of a state of depth < 2; txtail,
+// mixed: depth < 1): store.Snapshot is opened on the Pebble store before the batch, the batch
+// is committed while it is open, and the whole sweep is read THROUGH the snapshot; every read
+// must equal the one taken on the same store just before the batch ("C47:Snapshot:<method>:
+// <field>"). SQLite is not held in an open read snapshot (an in-memory shared-cache reader
+// blocks the writer); its pre-batch sweep is its snapshot view, already compared with Pebble's.
+//
 // Successor computation: a frontier state is rebuilt by replaying its batches on freshly
 // opened stores; the successors of that state are then produced on the same pair of stores,
 // restoring the raw content of both (all SQLite rows including rowids, all Pebble keys)
@@ -113,6 +120,7 @@ type c47harness struct {
 	limited      bool // run the LookupLimitedResources expectation check
 	rangeDeletes bool // alphabet contains writes that leave range tombstones in Pebble
 	depth        int  // batches per sequence
+	snapDepth    int  // the snapshot shape is run for every transition out of a state of depth < snapDepth
 	// SQLite-only catchpoint iterators checked against the stored rows
 	iterKV, iterOnline, iterOrp bool
 	run                         *c47run
@@ -136,7 +144,7 @@ type c47run struct {
 	pathKey   map[string]string // ops path -> key recorded when the state was first produced by restore
 	inconcl   []string
 
-	sweeps, reads, batches, restores, validated, refreshes atomic.Int64
+	sweeps, reads, batches, restores, validated, refreshes, snapshotSweeps atomic.Int64
 }
 
 type c47sys struct {
@@ -151,7 +159,8 @@ type c47sys struct {
 	dirty    bool
 	uses     int
 	curDump  *c47dump
-	dead     bool // backends diverged on a write: not expanded further
+	pre      *c47sink // Pebble sweep of this (base) state, for the snapshot shape
+	dead     bool     // backends diverged on a write: not expanded further
 	parent   *c47sys
 }
 
@@ -364,9 +373,38 @@ func (h *c47harness) apply(s *c47sys, op int) (bool, error) {
 	s.curDump = nil
 	h.run.batches.Add(1)
 
+	// snapshot shape: a store.Snapshot is opened on the Pebble store BEFORE the batch, the batch
+	// is committed while it is open, and the sweep is then run THROUGH the snapshot: it must
+	// equal the sweep taken on the same store just before the batch
+	var snapRd *c47readers
+	var snapClose func()
+	var pre *c47sink
+	if h.snapDepth > 0 && len(s.path)-1 < h.snapDepth {
+		pre = h.preSweep(s, prev)
+		snapRd, snapClose = c47openSnapshot(s.p.kv)
+	}
+
 	ru := s.p.proto.RewardUnit
 	resS, txS, panS := c47exec(s.p.rd[0], ru, cws)
 	resK, txK, panK := c47exec(s.p.rd[1], ru, cws)
+	if snapRd != nil {
+		var through c47sink
+		tmp := *s
+		tmp.m = prev
+		h.sweep(&through, snapRd, &tmp)
+		snapClose()
+		h.run.snapshotSweeps.Add(1)
+		if len(through.obs) != len(pre.obs) {
+			h.run.inconclusive("INCONCLUSIVE %s: snapshot sweep shapes differ (%d vs %d reads)", h.name, len(through.obs), len(pre.obs))
+		} else {
+			for i := range pre.obs {
+				a, b := &pre.obs[i], &through.obs[i]
+				if aspect, av, bv := c47compare(a, b); aspect != "" {
+					s.disagree("C47:Snapshot:"+a.method+":"+aspect, fmt.Sprintf("Pebble store.Snapshot opened before batch %s, batch committed, then %s(%s) read through the snapshot: %s differs from the read taken just before the batch: before=%q through-snapshot=%q", h.opName(op), a.method, a.args, aspect, c47clip(av), c47clip(bv)))
+				}
+			}
+		}
+	}
 	diverged := false
 	if (panS != "") != (panK != "") {
 		s.disagree("C47:"+c47kindName[batch[0].k]+":panic", fmt.Sprintf("batch %s: sqlite panic=%q pebble panic=%q", h.opName(op), panS, panK))
@@ -447,6 +485,46 @@ func (h *c47harness) apply(s *c47sys, op int) (bool, error) {
 	}
 	h.sweepAndCompare(s)
 	return true, nil
+}
+
+// preSweep is the sweep of the Pebble store in the state before the batch (computed once per
+// expanded state: every successor starts from the restored base content).
+func (h *c47harness) preSweep(s *c47sys, prev c47model) *c47sink {
+	if s.parent != nil && s.parent.pre != nil {
+		return s.parent.pre
+	}
+	var k c47sink
+	tmp := *s
+	tmp.m = prev
+	h.sweep(&k, s.p.rd[1], &tmp)
+	if s.parent != nil {
+		s.parent.pre = &k
+	}
+	return &k
+}
+
+// c47openSnapshot opens a read snapshot on a store and builds the readers of the sweep on it.
+func c47openSnapshot(st trackerdb.Store) (*c47readers, func()) {
+	snap, err := st.BeginSnapshot(context.Background())
+	if err != nil {
+		panic(fmt.Sprintf("c47 harness: BeginSnapshot: %v", err))
+	}
+	r := &c47readers{name: "pebble-snapshot"}
+	if r.ar, err = snap.MakeAccountsOptimizedReader(); err != nil {
+		panic(fmt.Sprintf("c47 harness: snapshot reader: %v", err))
+	}
+	if r.arx, err = snap.MakeAccountsReader(); err != nil {
+		panic(fmt.Sprintf("c47 harness: snapshot reader: %v", err))
+	}
+	if r.oar, err = snap.MakeOnlineAccountsOptimizedReader(); err != nil {
+		panic(fmt.Sprintf("c47 harness: snapshot reader: %v", err))
+	}
+	r.spr = snap.MakeSpVerificationCtxReader()
+	return r, func() {
+		r.ar.Close()
+		r.oar.Close()
+		snap.Close()
+	}
 }
 
 func (h *c47harness) sweepAndCompare(s *c47sys) {
@@ -772,7 +850,7 @@ func c47harnesses(run *c47run) []*c47harness {
 			s = append(s, c47w{k: c47wInsCrt, a: 1, i: int8(i)}, c47w{k: c47wDelCrt, i: int8(i)})
 		}
 		s = append(s, round)
-		h := &c47harness{name: "accounts", singles: s, limited: true}
+		h := &c47harness{name: "accounts", singles: s, limited: true, snapDepth: 2}
 		h.sweep = func(k *c47sink, rd *c47readers, s *c47sys) { c47sweepAccounts(k, rd, c47nAddr) }
 		add(h, func(a, b c47w) bool {
 			// pairs: same address, or creatable + resource of the same slot, or anything with the round
@@ -797,7 +875,7 @@ func c47harnesses(run *c47run) []*c47harness {
 			s = append(s, c47w{k: c47wKvDel, i: int8(i)})
 		}
 		s = append(s, round)
-		h := &c47harness{name: "kv", singles: s, depth: 3, iterKV: true}
+		h := &c47harness{name: "kv", singles: s, depth: 3, iterKV: true, snapDepth: 2}
 		h.sweep = func(k *c47sink, rd *c47readers, s *c47sys) {
 			k.read("AccountsRound", "", func(o *c47obs) error {
 				r, err := rd.arx.AccountsRound()
@@ -834,7 +912,7 @@ func c47harnesses(run *c47run) []*c47harness {
 			s = append(s, c47w{k: c47wOnDel, i: int8(i)})
 		}
 		s = append(s, round)
-		h := &c47harness{name: "online", singles: s, rangeDeletes: true, depth: 3, iterOnline: true}
+		h := &c47harness{name: "online", singles: s, rangeDeletes: true, depth: 3, iterOnline: true, snapDepth: 2}
 		h.sweep = func(k *c47sink, rd *c47readers, s *c47sys) {
 			c47sweepOnline(k, rd, nA, s.m.onClock, s.m.orpHi, s.p.proto.RewardUnit, s.onlineRows)
 		}
@@ -868,7 +946,7 @@ func c47harnesses(run *c47run) []*c47harness {
 			}
 		}
 		s = append(s, round, c47w{k: c47wRound, i: 1}, c47w{k: c47wRound, i: 2})
-		h := &c47harness{name: "txtail", singles: s, rangeDeletes: true}
+		h := &c47harness{name: "txtail", singles: s, rangeDeletes: true, snapDepth: 1}
 		h.sweep = func(k *c47sink, rd *c47readers, s *c47sys) { c47sweepTails(k, rd, &s.m, true, false, false) }
 		add(h, nil)
 	}
@@ -898,7 +976,7 @@ func c47harnesses(run *c47run) []*c47harness {
 			{k: c47wTailNew, v: 1, i: 1}, {k: c47wTotals, v: 1, i: 0}, {k: c47wOrpPut, v: 1}, {k: c47wSpStore, v: 1},
 			round,
 		}
-		h := &c47harness{name: "mixed", singles: s, limited: true, rangeDeletes: true, depth: c47depth - 1, iterKV: true, iterOnline: true, iterOrp: true}
+		h := &c47harness{name: "mixed", singles: s, limited: true, rangeDeletes: true, depth: c47depth - 1, iterKV: true, iterOnline: true, iterOrp: true, snapDepth: 1}
 		mixedPairs := func(a, b c47w) bool { return !thorough || isRound(a) || isRound(b) }
 		h.sweep = func(k *c47sink, rd *c47readers, s *c47sys) {
 			c47sweepAccounts(k, rd, 2)
@@ -927,6 +1005,7 @@ func TestVerif_C47(t *testing.T) {
 	r.Assume("caller contract for writes: insert only when absent, update/delete only when present with refs from LookupAccountRowID/InsertAccount, accounts deleted only without resources, one creatable type per index, growing online updrounds, forgetBefore <= round of an online insert in the same transaction, contiguous tx tail / round params / state proof rounds")
 	r.Assume("both stores are opened in memory and migrated with the real RunMigrations (no genesis accounts); one store.Transaction per batch")
 	r.Assume("results accompanying an error are not compared; nil and empty slices are identified; Ref handles are compared for nil-ness only")
+	r.Assume("snapshot shape (accounts, kv, online groups, every transition out of a state of depth < 2; txtail and mixed depth < 1): store.Snapshot is opened on the Pebble store before the batch and the sweep is read through it after the commit; the SQLite side is not held open in a read snapshot because an in-memory shared-cache reader holds table locks that block the writer: its view 'before the batch' is the sweep taken before the batch, which the regular oracle already compares with Pebble's")
 	r.Assume("successors are computed by restoring the raw content of both stores; every expanded state is re-created by replay on freshly opened stores and its raw dump compared with the restored one")
 
 	var cov ve.Coverage
@@ -988,6 +1067,7 @@ func TestVerif_C47(t *testing.T) {
 	r.Set("read_sweeps", run.sweeps.Load())
 	r.Set("reads_compared", run.reads.Load())
 	r.Set("batches_executed", run.batches.Load())
+	r.Set("snapshot_shape_sweeps", run.snapshotSweeps.Load())
 	r.Set("restores", run.restores.Load())
 	r.Set("base_reopens", run.refreshes.Load())
 	r.Set("restored_states_validated_by_fresh_replay", run.validated.Load())
